@@ -257,6 +257,10 @@ pub struct Core {
     /// every per-tick hook, for property-specific extra monitors: (node idx, time)
     pub inject_rng: Rng,
     pub injections: Vec<(u64, String)>,
+    /// largest peak of live bytes allocated inside a single ggrs call / largest single request
+    /// (only measured when the counting allocator is enabled, i.e. in worker processes)
+    pub alloc_peak_max: i64,
+    pub alloc_largest_max: usize,
 }
 
 fn err_name(e: &GgrsError) -> String {
@@ -400,6 +404,8 @@ pub fn build<P: Pred>(s: &Scn, oracles: Oracles) -> World<P> {
             log_fa: false,
             inject_rng: Rng::new(s.seed ^ 0x1717_1717),
             injections: vec![],
+            alloc_peak_max: 0,
+            alloc_largest_max: 0,
         },
         sess: sessions,
     }
@@ -482,7 +488,7 @@ impl<P: Pred> World<P> {
     }
 
     /// `hook(world, node index, time)` is called before every tick (for injections etc.).
-    pub fn run_with(&mut self, hook: &mut dyn FnMut(&mut World<P>, usize, u64)) {
+    pub fn run_with(&mut self, hook: &mut dyn FnMut(&mut Core, usize, u64)) {
         let s = self.scn.clone();
         let limit = T0 + if s.limit_ms > 0 { s.limit_ms * MS } else { (s.frames as u64) * (1000 / s.fps as u64 + 1) * MS * 4 + 20_000 * MS };
         let mut all_done_at: Option<u64> = None;
@@ -509,7 +515,7 @@ impl<P: Pred> World<P> {
             }
             vh::clock_set_nanos(t);
             self.core.end_t = t;
-            hook(self, ni, t);
+            hook(&mut self.core, ni, t);
             vh::clock_set_nanos(t);
             if self.core.nodes[ni].is_spec {
                 self.tick_spec(ni, t);
@@ -589,11 +595,15 @@ impl<P: Pred> World<P> {
             if wait > 0 {
                 core.net.borrow_mut().spin_ns = 500_000;
             }
-            let res = guarded(|| match wait {
-                0 => sess.advance_frame(),
-                1 => sess.advance_frame_with_wait(),
-                _ => sess.advance_frame_with_wait_timeout(Duration::from_millis(wait_ms)),
+            let (res, ast) = crate::alloc::region(true, || {
+                guarded(|| match wait {
+                    0 => sess.advance_frame(),
+                    1 => sess.advance_frame_with_wait(),
+                    _ => sess.advance_frame_with_wait_timeout(Duration::from_millis(wait_ms)),
+                })
             });
+            core.alloc_peak_max = core.alloc_peak_max.max(ast.peak_live);
+            core.alloc_largest_max = core.alloc_largest_max.max(ast.largest);
             if wait > 0 {
                 core.net.borrow_mut().spin_ns = 0;
                 let now = vh::clock_now_nanos();
@@ -654,7 +664,9 @@ impl<P: Pred> World<P> {
                 }
             }
         } else {
-            let res = guarded(|| sess.poll_remote_clients());
+            let (res, ast) = crate::alloc::region(true, || guarded(|| sess.poll_remote_clients()));
+            core.alloc_peak_max = core.alloc_peak_max.max(ast.peak_live);
+            core.alloc_largest_max = core.alloc_largest_max.max(ast.largest);
             if let Err(p) = res {
                 core.panic_viol(addr, t, "poll_remote_clients", p);
                 return;
@@ -739,7 +751,10 @@ impl<P: Pred> World<P> {
             }
             return;
         }
-        match guarded(|| sess.advance_frame()) {
+        let (sres, ast) = crate::alloc::region(true, || guarded(|| sess.advance_frame()));
+        core.alloc_peak_max = core.alloc_peak_max.max(ast.peak_live);
+        core.alloc_largest_max = core.alloc_largest_max.max(ast.largest);
+        match sres {
             Err(p) => {
                 core.panic_viol(addr, t, "SpectatorSession::advance_frame", p);
                 return;
@@ -909,17 +924,21 @@ pub fn run_scn(s: &Scn, o: Oracles) -> Core {
     run_scn_opts(s, o, false)
 }
 pub fn run_scn_opts(s: &Scn, o: Oracles, log_fa: bool) -> Core {
-    fn go<P: Pred>(s: &Scn, o: Oracles, log_fa: bool) -> Core {
+    run_scn_hook(s, o, log_fa, &mut |_, _, _| {})
+}
+/// `hook(core, node index, time)` runs before every tick (packet injection etc.).
+pub fn run_scn_hook(s: &Scn, o: Oracles, log_fa: bool, hook: &mut dyn FnMut(&mut Core, usize, u64)) -> Core {
+    fn go<P: Pred>(s: &Scn, o: Oracles, log_fa: bool, hook: &mut dyn FnMut(&mut Core, usize, u64)) -> Core {
         let mut w = build::<P>(s, o);
         w.core.log_fa = log_fa;
-        w.run();
+        w.run_with(hook);
         w.final_drain();
         w.core
     }
     if s.pred == 0 {
-        go::<PredictRepeatLast>(s, o, log_fa)
+        go::<PredictRepeatLast>(s, o, log_fa, hook)
     } else {
-        go::<PredictDefault>(s, o, log_fa)
+        go::<PredictDefault>(s, o, log_fa, hook)
     }
 }
 
